@@ -385,34 +385,27 @@ Section RoundTrip.
         ++ match tail with [] => [] | f :: r => EDPipe :: print_filter f ++ print_pipes r end) = Ok (XTern e c alt tail).
   Proof.
     intros Halt Htail. unfold parse_ternary.
-    set (tailT := match tail with [] => [] | f :: r => EDPipe :: print_filter f ++ print_pipes r end).
-    assert (Htl : match tailT with EDPipe :: _ => pfilters true true tailT | _ => Ok ([], tailT) end = Ok (tail, [])).
-    { subst tailT. destruct tail as [|f r]; [reflexivity|]. cbn [forallb] in Htail. apply andb_true_iff in Htail. destruct Htail as [Hf Hr].
-      apply tail_roundtrip; assumption. }
-    assert (HtailT : fend false tailT = true) by (subst tailT; destruct tail; reflexivity).
+    remember (match tail with [] => [] | f :: r => EDPipe :: print_filter f ++ print_pipes r end) as tailT eqn:Et.
+    assert (Hcase : (tailT = [] /\ tail = []) \/ (exists r, tailT = EDPipe :: r /\ pfilters true true (EDPipe :: r) = Ok (tail, []))).
+    { destruct tail as [|f r]; [left; split; [exact Et|reflexivity]|]. right. eexists. split; [exact Et|].
+      cbn [forallb] in Htail. apply andb_true_iff in Htail. destruct Htail as [Hf Hr]. apply tail_roundtrip; assumption. }
+    clear Et Htail.
+    assert (HtailT : fend false tailT = true) by (destruct Hcase as [[-> _]|(r & -> & _)]; reflexivity).
     destruct alt as [[a fs]|].
     - apply andb_true_iff in Halt. destruct Halt as [Ha Hfs].
       destruct (cond_roundtrip c (EElse :: print_prim a ++ print_pipes fs ++ tailT) eq_refl) as [Hpp Hsk].
-      cbn zeta in Hpp, Hsk. rewrite <- !app_assoc. cbn [app]. rewrite <- !app_assoc. rewrite Hpp. cbn [bind fst snd]. rewrite Hsk.
+      cbn zeta in Hpp, Hsk. cbn [app]. rewrite <- ?app_assoc. rewrite Hpp. cbn [bind fst snd]. rewrite Hsk.
       rewrite (pprim_roundtrip a _ Ha (sep_follow _ (ffollow_sep _ (pipes_head fs tailT (fend_ffollow false tailT HtailT))))).
       cbn [bind fst snd].
       destruct fs as [|f fs'].
       + cbn [ExprSyntax.print_pipes flat_map app].
-        assert (Hnp : match tailT with EPipe :: _ => false | _ => true end = true) by (subst tailT; destruct tail; reflexivity).
-        destruct tailT as [|t0 r0] eqn:Et.
-        * cbn [bind fst snd]. reflexivity.
-        * destruct t0; try discriminate Hnp; cbn [bind fst snd]; try (cbn [fend] in HtailT; discriminate HtailT);
-            rewrite Htl; cbn [bind fst snd]; reflexivity.
+        destruct Hcase as [[-> ->]|(r & -> & Htl)]; cbn [bind fst snd]; [reflexivity|]. rewrite Htl. reflexivity.
       + assert (Hpf : pfilters true false (print_pipes (f :: fs') ++ tailT) = Ok (f :: fs', tailT)) by (apply pfilters_roundtrip; assumption).
         unfold ExprSyntax.print_pipes in Hpf |- *. cbn [flat_map app] in Hpf |- *. rewrite Hpf. cbn [bind fst snd].
-        rewrite Htl. cbn [bind fst snd]. reflexivity.
-    - destruct (cond_roundtrip c tailT ltac:(subst tailT; destruct tail; reflexivity)) as [Hpp Hsk].
+        destruct Hcase as [[-> ->]|(r & -> & Htl)]; cbn [bind fst snd]; [reflexivity|]. rewrite Htl. reflexivity.
+    - destruct (cond_roundtrip c tailT ltac:(destruct Hcase as [[-> _]|(r & -> & _)]; reflexivity)) as [Hpp Hsk].
       cbn zeta in Hpp, Hsk. cbn [app]. rewrite Hpp. cbn [bind fst snd]. rewrite Hsk.
-      assert (Hne : match tailT with EElse :: _ => false | _ => true end = true) by (subst tailT; destruct tail; reflexivity).
-      destruct tailT as [|t0 r0] eqn:Et.
-      + cbn [bind fst snd]. reflexivity.
-      + destruct t0; try discriminate Hne; cbn [bind fst snd]; try (cbn [fend] in HtailT; discriminate HtailT);
-          rewrite Htl; cbn [bind fst snd]; reflexivity.
+      destruct Hcase as [[-> ->]|(r & -> & Htl)]; cbn [bind fst snd]; [reflexivity|]. rewrite Htl. reflexivity.
   Qed.
 
   (* FilteredExpression.parse reads back every filtered expression and every ternary *)
@@ -425,9 +418,9 @@ Section RoundTrip.
       rewrite (pfilters_roundtrip false (fe_filters e) [] Hfs eq_refl). cbn [bind fst snd]. destruct e; reflexivity.
     - apply andb_true_iff in Hwf. destruct Hwf as [Hwf Htail]. apply andb_true_iff in Hwf. destruct Hwf as [He Halt].
       unfold parse_expr. cbn [ExprSyntax.print_expr].
-      rewrite (fexpr_left e _ He eq_refl). cbn [bind fst snd].
+      rewrite (fexpr_left e (EIf :: _) He eq_refl). cbn [bind fst snd].
       pose proof He as He'. unfold wf_fexpr in He'. apply andb_true_iff in He'. destruct He' as [_ Hfs].
-      rewrite (pfilters_roundtrip false (fe_filters e) _ Hfs eq_refl). cbn [bind fst snd].
+      rewrite (pfilters_roundtrip false (fe_filters e) (EIf :: _) Hfs eq_refl). cbn [bind fst snd].
       replace {| fe_left := fe_left e; fe_filters := fe_filters e |} with e by (destruct e; reflexivity).
       apply ternary_roundtrip; assumption.
   Qed.
